@@ -75,12 +75,14 @@ type c24World struct {
 	s3       *c24S3
 	memberID string
 	gen      int32
+	member2  string // group g2
+	gen2     int32
 	corr     int32
 }
 
 var (
 	c24Topics = []string{"orders", "payments", "newtopic", "ord"} // the last two do not exist initially
-	c24Groups = []string{"g1", "g2", "newgroup"}                  // only g1 exists initially
+	c24Groups = []string{"g1", "g2", "newgroup"}                  // g1 and g2 exist initially
 )
 
 func c24Subscription(topics ...string) []byte {
@@ -166,37 +168,43 @@ func c24NewWorld() (*c24World, error) {
 	if err := store.UpdateTopicConfig(ctx, cfg); err != nil {
 		return nil, err
 	}
-	// live group g1: one stable member
-	jreq := kmsg.NewPtrJoinGroupRequest()
-	jreq.Group = "g1"
-	jreq.SessionTimeoutMillis = 3600000
-	jreq.RebalanceTimeoutMillis = 3600000
-	jreq.ProtocolType = "consumer"
-	jreq.Protocols = []kmsg.JoinGroupRequestProtocol{{Name: "range", Metadata: c24Subscription("orders")}}
-	payload, err = w.call(&root, protocol.APIKeyJoinGroup, 4, jreq)
-	if err != nil {
-		return nil, fmt.Errorf("setup join: %w", err)
-	}
-	jresp := kmsg.NewPtrJoinGroupResponse()
-	if err := c24Decode(4, payload, jresp); err != nil {
-		return nil, err
-	}
-	if jresp.ErrorCode != 0 || jresp.MemberID == "" {
-		return nil, fmt.Errorf("setup join: code %d member %q", jresp.ErrorCode, jresp.MemberID)
-	}
-	w.memberID, w.gen = jresp.MemberID, jresp.Generation
-	sreq := kmsg.NewPtrSyncGroupRequest()
-	sreq.Group, sreq.Generation, sreq.MemberID = "g1", w.gen, w.memberID
-	payload, err = w.call(&root, protocol.APIKeySyncGroup, 4, sreq)
-	if err != nil {
-		return nil, fmt.Errorf("setup sync: %w", err)
-	}
-	sresp := kmsg.NewPtrSyncGroupResponse()
-	if err := c24Decode(4, payload, sresp); err != nil {
-		return nil, err
-	}
-	if sresp.ErrorCode != 0 {
-		return nil, fmt.Errorf("setup sync: code %d", sresp.ErrorCode)
+	// live groups g1 and g2: one stable member each
+	for _, g := range []string{"g1", "g2"} {
+		jreq := kmsg.NewPtrJoinGroupRequest()
+		jreq.Group = g
+		jreq.SessionTimeoutMillis = 3600000
+		jreq.RebalanceTimeoutMillis = 3600000
+		jreq.ProtocolType = "consumer"
+		jreq.Protocols = []kmsg.JoinGroupRequestProtocol{{Name: "range", Metadata: c24Subscription("orders")}}
+		payload, err = w.call(&root, protocol.APIKeyJoinGroup, 4, jreq)
+		if err != nil {
+			return nil, fmt.Errorf("setup join: %w", err)
+		}
+		jresp := kmsg.NewPtrJoinGroupResponse()
+		if err := c24Decode(4, payload, jresp); err != nil {
+			return nil, err
+		}
+		if jresp.ErrorCode != 0 || jresp.MemberID == "" {
+			return nil, fmt.Errorf("setup join %s: code %d member %q", g, jresp.ErrorCode, jresp.MemberID)
+		}
+		if g == "g1" {
+			w.memberID, w.gen = jresp.MemberID, jresp.Generation
+		} else {
+			w.member2, w.gen2 = jresp.MemberID, jresp.Generation
+		}
+		sreq := kmsg.NewPtrSyncGroupRequest()
+		sreq.Group, sreq.Generation, sreq.MemberID = g, jresp.Generation, jresp.MemberID
+		payload, err = w.call(&root, protocol.APIKeySyncGroup, 4, sreq)
+		if err != nil {
+			return nil, fmt.Errorf("setup sync: %w", err)
+		}
+		sresp := kmsg.NewPtrSyncGroupResponse()
+		if err := c24Decode(4, payload, sresp); err != nil {
+			return nil, err
+		}
+		if sresp.ErrorCode != 0 {
+			return nil, fmt.Errorf("setup sync %s: code %d", g, sresp.ErrorCode)
+		}
 	}
 	creq := kmsg.NewPtrOffsetCommitRequest()
 	creq.Group, creq.Generation, creq.MemberID = "g1", w.gen, w.memberID
@@ -396,6 +404,9 @@ func (w *c24World) build(r c24Req) kmsg.Request {
 	if len(r.Groups) > 0 {
 		group = r.Groups[0]
 	}
+	if r.ValidMem && group == "g2" {
+		member, gen = w.member2, w.gen2
+	}
 	switch r.Key {
 	case protocol.APIKeyProduce:
 		req := kmsg.NewPtrProduceRequest()
@@ -419,7 +430,7 @@ func (w *c24World) build(r c24Req) kmsg.Request {
 		req.MaxBytes = 1 << 20
 		for _, t := range r.Topics {
 			rt := kmsg.NewFetchRequestTopic()
-			if r.ByID && r.Version >= 13 {
+			if r.Version >= 13 { // v13 addresses topics by id only (the name is not on the wire)
 				rt.TopicID = metadata.TopicIDForName(t)
 			} else {
 				rt.Topic = t
@@ -494,7 +505,7 @@ func (w *c24World) build(r c24Req) kmsg.Request {
 		req.RebalanceTimeoutMillis = 3600000
 		req.ProtocolType = "consumer"
 		if r.ValidMem {
-			req.MemberID = w.memberID
+			req.MemberID = member
 		}
 		req.Protocols = []kmsg.JoinGroupRequestProtocol{{Name: "range", Metadata: c24Subscription("payments")}}
 		return req
@@ -772,7 +783,7 @@ func c24ConfigGen() *rapid.Generator[acl.Config] {
 			cfg.DefaultPolicy = "allow"
 		}
 		for _, name := range []string{"alice", "bob", "carol", "anonymous"} {
-			switch rapid.IntRange(-2, 7).Draw(t, "entry-"+name) {
+			switch rapid.IntRange(-3, 7).Draw(t, "entry-"+name) {
 			case -2: // broad allow, specific denies (also the natural shape under default allow)
 				e := acl.PrincipalRules{Name: name}
 				if rapid.IntRange(0, 3).Draw(t, "broadAllow") > 0 {
@@ -792,6 +803,11 @@ func c24ConfigGen() *rapid.Generator[acl.Config] {
 					e.Deny = append(e.Deny, d)
 				}
 				cfg.Principals = append(cfg.Principals, e)
+			case -3: // allowed on exactly one existing group
+				cfg.Principals = append(cfg.Principals, acl.PrincipalRules{Name: name, Allow: []acl.Rule{{
+					Action:   rapid.SampledFrom([]acl.Action{acl.ActionGroupAdmin, acl.ActionGroupAdmin, acl.ActionGroupRead, acl.ActionGroupWrite, acl.ActionAny}).Draw(t, "oneGroupAction"),
+					Resource: acl.ResourceGroup,
+					Name:     rapid.SampledFrom([]string{"g1", "g2"}).Draw(t, "oneGroupName")}}})
 			case -1: // allowed on exactly one existing topic
 				cfg.Principals = append(cfg.Principals, acl.PrincipalRules{Name: name, Allow: []acl.Rule{{
 					Action:   rapid.SampledFrom([]acl.Action{acl.ActionProduce, acl.ActionFetch, acl.ActionAny}).Draw(t, "oneTopicAction"),
@@ -974,6 +990,186 @@ func c24NoClaimOn(cfg acl.Config, principal, name string) bool {
 	return true
 }
 
+// c24PerResource: for APIs that take a LIST of topics/groups, the kind of the listed
+// resources ("" = not a list API / not judged per resource).
+func c24PerResource(key int16) acl.Resource {
+	switch key {
+	case protocol.APIKeyProduce, protocol.APIKeyFetch, protocol.APIKeyListOffsets, protocol.APIKeyOffsetForLeaderEpoch,
+		protocol.APIKeyCreateTopics, protocol.APIKeyDeleteTopics, protocol.APIKeyAlterConfigs, protocol.APIKeyCreatePartitions,
+		protocol.APIKeyDescribeConfigs:
+		return acl.ResourceTopic
+	case protocol.APIKeyDescribeGroups, protocol.APIKeyDeleteGroups:
+		return acl.ResourceGroup
+	}
+	return ""
+}
+
+// c24ResourceUnauthorized: the principal provably lacks the permission for THIS listed
+// resource: no rule of it can concern the name under any reading (default deny), or an
+// explicit deny rule for the API's action covers the name.
+func c24ResourceUnauthorized(cfg acl.Config, principal string, api *c24API, kind acl.Resource, name string) bool {
+	if c24NoClaimOn(cfg, principal, name) {
+		return true
+	}
+	if principal == "" {
+		principal = "anonymous"
+	}
+	e := c24Entry(cfg, principal)
+	return e != nil && api.action != "" && c24Kind(api.key) == kind && c24DeniedBy(e.Deny, api.action, kind, name)
+}
+
+// c24KeyBelongs: does a snapshot key describe state of topic/group `name`?
+func c24KeyBelongs(key string, kind acl.Resource, name string) bool {
+	parts := strings.Split(key, "/")
+	if kind == acl.ResourceGroup {
+		return (parts[0] == "group" && len(parts) == 2 && parts[1] == name) || (parts[0] == "committed" && len(parts) >= 2 && parts[1] == name)
+	}
+	switch parts[0] {
+	case "topic", "config":
+		return len(parts) == 2 && parts[1] == name
+	case "endoffset", "unflushed":
+		return len(parts) >= 2 && parts[1] == name
+	case "committed":
+		return len(parts) >= 3 && parts[2] == name
+	case "s3":
+		return len(parts) >= 3 && parts[2] == name // s3/<namespace>/<topic>/<partition>/...
+	}
+	return false
+}
+
+func c24ChangedKeys(a, b map[string]string) []string {
+	var d []string
+	for k, v := range a {
+		if w, ok := b[k]; !ok || w != v {
+			d = append(d, k)
+		}
+	}
+	for k := range b {
+		if _, ok := a[k]; !ok {
+			d = append(d, k)
+		}
+	}
+	sort.Strings(d)
+	return d
+}
+
+// c24ResultByName decodes a list API's response into per-resource codes and record bytes.
+func c24ResultByName(key, v int16, payload []byte) (codes map[string][]int16, recordBytes map[string]int, err error) {
+	codes, recordBytes = map[string][]int16{}, map[string]int{}
+	idName := map[[16]byte]string{}
+	for _, t := range c24Topics {
+		idName[metadata.TopicIDForName(t)] = t
+	}
+	switch key {
+	case protocol.APIKeyProduce:
+		resp := kmsg.NewPtrProduceResponse()
+		if err = c24Decode(v, payload, resp); err != nil {
+			return
+		}
+		for _, t := range resp.Topics {
+			for _, p := range t.Partitions {
+				codes[t.Topic] = append(codes[t.Topic], p.ErrorCode)
+			}
+		}
+	case protocol.APIKeyFetch:
+		resp := kmsg.NewPtrFetchResponse()
+		if err = c24Decode(v, payload, resp); err != nil {
+			return
+		}
+		for _, t := range resp.Topics {
+			name := t.Topic
+			if name == "" {
+				name = idName[t.TopicID]
+			}
+			for _, p := range t.Partitions {
+				codes[name] = append(codes[name], p.ErrorCode)
+				recordBytes[name] += len(p.RecordBatches)
+			}
+		}
+	case protocol.APIKeyListOffsets:
+		resp := kmsg.NewPtrListOffsetsResponse()
+		if err = c24Decode(v, payload, resp); err != nil {
+			return
+		}
+		for _, t := range resp.Topics {
+			for _, p := range t.Partitions {
+				codes[t.Topic] = append(codes[t.Topic], p.ErrorCode)
+			}
+		}
+	case protocol.APIKeyOffsetForLeaderEpoch:
+		resp := kmsg.NewPtrOffsetForLeaderEpochResponse()
+		if err = c24Decode(v, payload, resp); err != nil {
+			return
+		}
+		for _, t := range resp.Topics {
+			for _, p := range t.Partitions {
+				codes[t.Topic] = append(codes[t.Topic], p.ErrorCode)
+			}
+		}
+	case protocol.APIKeyCreateTopics:
+		resp := kmsg.NewPtrCreateTopicsResponse()
+		if err = c24Decode(v, payload, resp); err != nil {
+			return
+		}
+		for _, t := range resp.Topics {
+			codes[t.Topic] = append(codes[t.Topic], t.ErrorCode)
+		}
+	case protocol.APIKeyDeleteTopics:
+		resp := kmsg.NewPtrDeleteTopicsResponse()
+		if err = c24Decode(v, payload, resp); err != nil {
+			return
+		}
+		for _, t := range resp.Topics {
+			if t.Topic != nil {
+				codes[*t.Topic] = append(codes[*t.Topic], t.ErrorCode)
+			}
+		}
+	case protocol.APIKeyCreatePartitions:
+		resp := kmsg.NewPtrCreatePartitionsResponse()
+		if err = c24Decode(v, payload, resp); err != nil {
+			return
+		}
+		for _, t := range resp.Topics {
+			codes[t.Topic] = append(codes[t.Topic], t.ErrorCode)
+		}
+	case protocol.APIKeyDescribeConfigs:
+		resp := kmsg.NewPtrDescribeConfigsResponse()
+		if err = c24Decode(v, payload, resp); err != nil {
+			return
+		}
+		for _, r := range resp.Resources {
+			if r.ResourceType == kmsg.ConfigResourceTypeTopic {
+				codes[r.ResourceName] = append(codes[r.ResourceName], r.ErrorCode)
+			}
+		}
+	case protocol.APIKeyAlterConfigs:
+		resp := kmsg.NewPtrAlterConfigsResponse()
+		if err = c24Decode(v, payload, resp); err != nil {
+			return
+		}
+		for _, r := range resp.Resources {
+			codes[r.ResourceName] = append(codes[r.ResourceName], r.ErrorCode)
+		}
+	case protocol.APIKeyDescribeGroups:
+		resp := kmsg.NewPtrDescribeGroupsResponse()
+		if err = c24Decode(v, payload, resp); err != nil {
+			return
+		}
+		for _, g := range resp.Groups {
+			codes[g.Group] = append(codes[g.Group], g.ErrorCode)
+		}
+	case protocol.APIKeyDeleteGroups:
+		resp := kmsg.NewPtrDeleteGroupsResponse()
+		if err = c24Decode(v, payload, resp); err != nil {
+			return
+		}
+		for _, g := range resp.Groups {
+			codes[g.Group] = append(codes[g.Group], g.ErrorCode)
+		}
+	}
+	return
+}
+
 type c24Aim struct {
 	principal string
 	key       int16
@@ -1003,9 +1199,43 @@ func c24Aims(cfg acl.Config) []c24Aim {
 				}
 				if kind == acl.ResourceTopic && inTopics(d.Name) {
 					aims = append(aims, c24Aim{principal: principal, key: api.key, topics: []string{d.Name}, byID: api.key == protocol.APIKeyFetch})
+					other := map[bool]string{true: "payments", false: "orders"}[d.Name == "orders"]
+					aims = append(aims, c24Aim{principal: principal, key: api.key, topics: []string{other, d.Name}, byID: api.key == protocol.APIKeyFetch})
+					aims = append(aims, c24Aim{principal: principal, key: api.key, topics: []string{d.Name, other}})
 				}
 				if kind == acl.ResourceGroup && inGroups(d.Name) {
 					aims = append(aims, c24Aim{principal: principal, key: api.key, groups: []string{d.Name}})
+					if api.key == protocol.APIKeyDescribeGroups || api.key == protocol.APIKeyDeleteGroups {
+						other := map[bool]string{true: "g2", false: "g1"}[d.Name == "g1"]
+						aims = append(aims, c24Aim{principal: principal, key: api.key, groups: []string{other, d.Name}})
+						aims = append(aims, c24Aim{principal: principal, key: api.key, groups: []string{d.Name, other}})
+					}
+				}
+			}
+		}
+		// list requests mixing a resource the principal is allowed on with one it has no claim on
+		for _, a := range e.Allow {
+			for _, api := range c24APIs {
+				per := c24PerResource(api.key)
+				if per == "" || a.Resource != per || (api.action != "" && a.Action != api.action && a.Action != acl.ActionAny) {
+					continue
+				}
+				pool, ok := c24Topics, inTopics(a.Name)
+				if per == acl.ResourceGroup {
+					pool, ok = c24Groups, inGroups(a.Name)
+				}
+				if !ok {
+					continue
+				}
+				for _, other := range pool {
+					if other == a.Name || !c24NoClaimOn(cfg, e.Name, other) {
+						continue
+					}
+					if per == acl.ResourceTopic {
+						aims = append(aims, c24Aim{principal: principal, key: api.key, topics: []string{a.Name, other}}, c24Aim{principal: principal, key: api.key, topics: []string{other, a.Name}})
+					} else {
+						aims = append(aims, c24Aim{principal: principal, key: api.key, groups: []string{a.Name, other}}, c24Aim{principal: principal, key: api.key, groups: []string{other, a.Name}})
+					}
 				}
 			}
 		}
@@ -1152,6 +1382,62 @@ func c24Exec(w *c24World, cfg acl.Config, r c24Req, st *vfkit.Stats, known bool)
 				}
 			}
 		}
+		// list APIs: judge every listed resource on its own
+		if per := c24PerResource(api.key); per != "" {
+			names := r.Topics
+			if per == acl.ResourceGroup {
+				names = r.Groups
+			}
+			var unauth []string
+			for _, n := range names {
+				if c24ResourceUnauthorized(cfg, r.Principal, api, per, n) {
+					unauth = append(unauth, n)
+				}
+			}
+			if len(unauth) > 0 {
+				st.Class("mixed-list:" + api.name)
+				before, err := w.snapshot()
+				if err != nil {
+					return "harness snapshot: " + err.Error(), "", false
+				}
+				payload, herr := w.call(principal, r.Key, r.Version, req)
+				after, err := w.snapshot()
+				if err != nil {
+					return "harness snapshot: " + err.Error(), "", false
+				}
+				for _, k := range c24ChangedKeys(before, after) {
+					for _, n := range unauth {
+						if c24KeyBelongs(k, per, n) {
+							return fmt.Sprintf("%s %v from %q: the principal lacks the permission for %s %q, yet its state changed: %s: %q -> %q", api.name, names, r.Principal, per, n, k, before[k], after[k]), "mixed", true
+						}
+					}
+				}
+				if herr != nil || payload == nil {
+					return "", "mixed", true // nothing was answered for anybody (acks=0 / connection error)
+				}
+				codes, recBytes, derr := c24ResultByName(r.Key, r.Version, payload)
+				if derr != nil {
+					return fmt.Sprintf("%s v%d response undecodable: %v", api.name, r.Version, derr), "mixed", true
+				}
+				for _, n := range unauth {
+					if recBytes[n] > 0 {
+						return fmt.Sprintf("%s %v from %q returned %d record bytes of %q, for which the principal lacks the permission", api.name, names, r.Principal, recBytes[n], n), "mixed", true
+					}
+					if len(codes[n]) == 0 {
+						if api.key == protocol.APIKeyFetch && r.Version >= 13 {
+							continue // unknown topic id: answered without a name
+						}
+						return fmt.Sprintf("%s %v from %q: no result for %q in the response", api.name, names, r.Principal, n), "mixed", true
+					}
+					for _, c := range codes[n] {
+						if !c24IsAuthCode(c) && !(api.key == protocol.APIKeyFetch && c == protocol.UNKNOWN_TOPIC_ID) {
+							return fmt.Sprintf("%s %v from %q: %s %q (no permission) answered with codes %v, not an authorization error", api.name, names, r.Principal, per, n, codes[n]), "mixed", true
+						}
+					}
+				}
+				return "", "mixed", len(unauth) < len(names)
+			}
+		}
 		_, _ = w.call(principal, r.Key, r.Version, req)
 		for _, t := range noClaim {
 			if exists(t) {
@@ -1215,7 +1501,7 @@ func c24Exec(w *c24World, cfg acl.Config, r c24Req, st *vfkit.Stats, known bool)
 		if c24IsAuthCode(c) {
 			continue
 		}
-		if api.key == protocol.APIKeyFetch && r.ByID && r.Version >= 13 && c == protocol.UNKNOWN_TOPIC_ID {
+		if api.key == protocol.APIKeyFetch && r.Version >= 13 && c == protocol.UNKNOWN_TOPIC_ID {
 			st.Class("unauthorized-fetch-unknown-topic-id")
 			continue // no topic could be resolved, nothing to authorize against
 		}
